@@ -29,6 +29,28 @@ type zzSyncEnv struct {
 	forgedHeads  int    // forged heads offered by the Head getter so far
 }
 
+// zzWrappedErr: a getter error carrying a cause (what p2p.Exchange hands out when its own context ends
+// under a request, or when a peer request runs into its deadline).
+type zzWrappedErr struct{ inner error }
+
+func (e *zzWrappedErr) Error() string { return "zz: getter failure: " + e.inner.Error() }
+func (e *zzWrappedErr) Unwrap() error { return e.inner }
+
+// getterErr draws the kind of the injected getter error (ERRKINDS=1): a plain failure, or one wrapping
+// context.Canceled / context.DeadlineExceeded although the Syncer's own context is alive.
+func (env *zzSyncEnv) getterErr() error {
+	if zz.Param("ERRKINDS", 0) == 1 {
+		switch zz.Choice("getter.errkind", 3) {
+		case 1:
+			zz.Reach("getter-error-wraps-canceled")
+			return &zzWrappedErr{context.Canceled}
+		case 2:
+			return &zzWrappedErr{context.DeadlineExceeded}
+		}
+	}
+	return zzErrGetter
+}
+
 // zzNewSyncEnv starts a real Syncer over the specification store holding chain[:stored].
 func zzNewSyncEnv(ctx context.Context, K, stored, getterErrs int, gates bool) *zzSyncEnv {
 	env := &zzSyncEnv{K: K, getterErrs: getterErrs}
@@ -95,7 +117,7 @@ func zzNewSyncEnv(ctx context.Context, K, stored, getterErrs int, gates bool) *z
 			zz.Gate("getter:byheight")
 		}
 		if fail() {
-			return nil, zzErrGetter
+			return nil, env.getterErr()
 		}
 		if h < 1 || h > uint64(K) {
 			return nil, header.ErrNotFound
@@ -108,7 +130,7 @@ func zzNewSyncEnv(ctx context.Context, K, stored, getterErrs int, gates bool) *z
 		}
 		env.rangeReqs = append(env.rangeReqs, [2]uint64{from.H, to})
 		if fail() {
-			return nil, zzErrGetter
+			return nil, env.getterErr()
 		}
 		// contract: a non-empty contiguous prefix of [from+1, to) or an error
 		if to <= from.H+1 || from.H+1 > uint64(K) {
@@ -131,7 +153,7 @@ func zzNewSyncEnv(ctx context.Context, K, stored, getterErrs int, gates bool) *z
 			zz.Gate("getter:head")
 		}
 		if fail() {
-			return nil, zzErrGetter
+			return nil, env.getterErr()
 		}
 		var p header.HeadParams[*zh.Hdr]
 		for _, o := range opts {
